@@ -238,7 +238,7 @@ pub struct LocalKey {
     pub node: u8,
     pub snap: CoreSnapshot,
     pub stored: BTreeMap<Digest, u64>,
-    pub parked: BTreeSet<Digest>,
+    pub parked: BTreeMap<Digest, u64>,
     /// statically unacceptable blocks to which the node nevertheless reacted
     pub odd: BTreeSet<Digest>,
     pub hist: Hist,
